@@ -50,7 +50,7 @@ Normalization(c, refidx, map) ==
     IN  Join([i \in 1..Len(es) |-> es[i].txt], <<59>>)
 AliasNames(c) == {c.aliases[a].alias : a \in 1..Len(c.aliases)}
 GroupBy(c, map) ==
-    IF ~c.hasgroup THEN T_DASH
+    IF ~c.hasgroup \/ c.groupby = <<>> THEN T_DASH          \* (a group-by list without entries groups by nothing, like no list)
     ELSE Join([i \in 1..Len(c.groupby) |-> Quoted(IF c.groupby[i] \in AliasNames(c) THEN c.groupby[i] ELSE Ren(map, c.groupby[i]))], <<44>>)
 RefList(c, rules) == Join([i \in 1..Len(c.refs) |-> RuleId(rules[c.refs[i]])], <<44>>)
 
